@@ -374,9 +374,25 @@ def check_ranges(client, rep, t, ch):
             fails.append({"kind": "ranges-do-not-tile", "what": f"{a} then {b}"})
     if rngs and rngs[-1][1] != len(data) - 1:
         fails.append({"kind": "ranges-do-not-tile", "what": "last range does not end the file"})
-    for r in rngs[1:]:
-        if starts.get(r[0]) not in ("moof", "styp", "sidx", "emsg"):
-            fails.append({"kind": "range-start", "what": f"media range {r} starts inside a box"})
+    # every media range must start on the FIRST box of a segment ([styp] [sidx] [emsg]* moof mdat)
+    # and end on its last byte
+    first_box, lead = [], False
+    for i, b in enumerate(boxes):
+        if b.type != "moof":
+            continue
+        j = i
+        while j > 0 and boxes[j - 1].type in ("styp", "sidx", "emsg", "prft"):
+            j -= 1
+        if boxes[j].type == "sidx" and j > 0 and boxes[j - 1].type == "moov":
+            pass
+        lead = lead or j != i
+        first_box.append(boxes[j].start)
+    ends = [p - 1 for p in first_box[1:]] + [len(data) - 1]
+    for k, r in enumerate(rngs[1:]):
+        if k < len(first_box) and (r[0] != first_box[k] or r[1] != ends[k]):
+            fails.append({"kind": "range-not-on-segment-boundary", "leading_boxes": lead,
+                          "what": f"media range {k + 1} is {r}, the segment is {first_box[k]}-{ends[k]}"})
+            break
     for i, (a, b) in enumerate(rngs):
         rs = segwalk.get(client, base, headers={"Range": f"bytes={a}-{b}"})
         ch.evaluations += 1
@@ -395,11 +411,32 @@ def channels(ctx):
 
 
 def matches_finding(finding, failure):
+    if finding.get("class") == "leading-boxes-attributed-to-previous-segment":
+        return failure.get("kind") == "range-not-on-segment-boundary" and bool(failure.get("leading_boxes"))
     return False
 
 
 def replay_finding(ctx, finding):
-    """D11: VOD $Time$ of an irregular track is served from the wrong stored segment"""
+    """D11: VOD $Time$ of an irregular track is served from the wrong stored segment;
+    D25: on-demand ranges of a file with sidx in front of each moof"""
+    if finding.get("class") == "leading-boxes-attributed-to-previous-segment":
+        import appboot
+        import segchecks
+        import segwalk
+        w = finding["witness"]
+        app = segchecks.get_app()
+        with appboot.Clock(w["now"]):
+            r = app.client().get(w["manifest"])
+            if r.status_code != 200:
+                return False
+            mpd = segwalk.parse_mpd("http://localhost" + w["manifest"], r.data)
+            trk = segchecks.tracks(app, w["stream"])
+            ch = Channel("replay")
+            for rep in mpd.reps:
+                if rep.rep_id == w["rep"] and rep.seg_list is not None:
+                    return any(f["kind"] == "range-not-on-segment-boundary"
+                               for f in check_ranges(app.client(), rep, trk[rep.rep_id], ch))
+        return False
     import appboot
     import segchecks
     import segwalk
